@@ -287,26 +287,41 @@ def t_interval(q, what, unit=False):
 # ---- Plutus data (C18's codec, with the framing choices C03 quantifies over) -------------------------------------------
 def t_pdata(d, w):
     lists, chunk = w.plutus_lists, w.plutus_bytes
+    # "nested:<seed>": canonical framing, except that a list / field list whose parent frame is an indefinite list is
+    # definite with probability 1/2 (per node, derived from the seed and a node counter)
+    nested = lists.startswith("nested:")
+    counter = [0]
 
-    def seq(items):
+    def seq(items, parent_indef=False):
         if lists == "definite":
             return list(items)
         if lists == "indefinite":
             return R.IndefList(items)
+        if nested and parent_indef and items:
+            counter[0] += 1
+            if int(hashlib.blake2b(f"{lists}/{counter[0]}".encode(), digest_size=1).hexdigest(), 16) % 2 == 0:
+                return list(items)
         return R.IndefList(items) if items else []
 
     def byt(b):
         return P.ref_bytes(b) if chunk == "canonical" else b
 
-    def go(x):
+    def go(x, parent_indef=False):
         k = x[0]
         if k == "constr":
             _need(_isint(x[1]) and 0 <= x[1] < U64, "constructor index")
-            fields = seq([go(f) for f in x[2]])
             t = P.constr_tag(x[1])
+            # children are built after this node's framing is known (a definite frame shields its children)
+            probe = seq([None] * len(x[2]), parent_indef and t is not None)
+            mine_indef = isinstance(probe, R.IndefList)
+            kids = [go(f, mine_indef) for f in x[2]]
+            fields = R.IndefList(kids) if mine_indef else kids
             return R.Tag(t, fields) if t is not None else R.Tag(102, [x[1], fields])
         if k == "list":
-            return seq([go(i) for i in x[1]])
+            probe = seq([None] * len(x[1]), parent_indef)
+            mine_indef = isinstance(probe, R.IndefList)
+            kids = [go(i, mine_indef) for i in x[1]]
+            return R.IndefList(kids) if mine_indef else kids
         if k == "map":
             return R.Map([(go(a), go(b)) for a, b in x[1]])
         if k == "int":
